@@ -59,7 +59,18 @@ def e7_consumption_is_not_decided_by_content(ctx):
                 continue
             n += 1
             _, acalls, _ = fb.slice_back([q[0]])
-            scans = sorted({cc.name for (_, cc, _) in acalls if (cc.method or "") in SCANS and (cc.name.startswith(("Iterator::", "str::", "[T]::", "DoubleEndedIterator::")) or "memchr" in cc.target)})
+            def _is_scan(cc):
+                return (cc.method or "") in SCANS and (cc.name.startswith(("Iterator::", "str::", "[T]::", "DoubleEndedIterator::")) or "memchr" in cc.target)
+            scans = {cc.name for (_, cc, _) in acalls if _is_scan(cc)}
+            # a helper handed over as a function value (`.and_then(line_len)`) computes the length just the same
+            for (_, cc, ct) in acalls:
+                for a in ct["args"]:
+                    k = op_const(a)
+                    if k and "fn" in k:
+                        hb = prog.body(Callee(k["fn"]).target)
+                        if hb is not None and hb.defp.startswith("octo_squirrel"):
+                            scans |= {c2.name + " (in " + last_seg(hb.defp) + ")" for (_, c2, _) in prog.flat(hb.defp).calls() if _is_scan(c2)}
+            scans = sorted(scans)
             ctx.ob("E7", prog.body(fb.origin[blk]).defp if prog.body(fb.origin[blk]) is not None else b0.defp, f"consumed-length-not-from-a-content-scan:{c.method}", loc(t["sp"]), not scans,
                    "the consumed length is a constant, a length field or the remaining length" if not scans else
                    f"the number of bytes taken off the stream here comes out of scanning the bytes themselves ({', '.join(scans[:3])}): when the payload behind the request begins "
